@@ -55,7 +55,10 @@ def mret(v):
     return repr(v)
 
 
-def build_workchain(outline, oracle):
+def build_workchain(outline, oracle, alias=False):
+    """alias: the first step function of the outline carries a __name__ under which the class has ANOTHER function (as a
+    decorated or factory-made step does): the outline holds function objects, and those are what must be called (only for
+    runs without checkpoints: a restored stepper finds its step by name)"""
     ns = {}
 
     def mk_step(i, ret, aw='none'):
@@ -71,7 +74,7 @@ def build_workchain(outline, oracle):
                 else:
                     return wc.ToContext(**{'a%d' % i: fut})
             return pyret(ret)
-        s.__name__ = 's%d' % i
+        s.__name__ = 's%d' % i if not (alias and i == 1) else 'decoy'
         return s
 
     def mk_pred(i):
@@ -97,6 +100,10 @@ def build_workchain(outline, oracle):
                         ns['p%d' % c['pred']] = mk_pred(c['pred'])
                     collect(c['body'])
     collect(outline['body'])
+    if alias:
+        def decoy(self):
+            self.ctx.setdefault('trace', []).append(['s', 99])
+        ns['decoy'] = decoy
 
     def cmds(cls, body):
         out = []
@@ -222,7 +229,7 @@ def run_outline(outline, oracle, crash_at=(), medium='pickle', max_units=200, la
     At a unit boundary in crash_at the process is checkpointed; `lag` units later the running instance is abandoned and the
     checkpoint loaded in a fresh event loop (lag > 0: the work since the checkpoint is lost and done again)."""
     loop = vloop.install()
-    cls = build_workchain(outline, oracle)
+    cls = build_workchain(outline, oracle, alias=not crash_at and medium == 'none')
     proc = cls()
     units = []
     waits = []
